@@ -91,6 +91,24 @@ def queries(F, S, t2s, ths, full=True):
         if full and len(F.pos) and len(F.neg):
             ident = ident and F.eer() == S.eer() and F.auc() == S.auc() and F.auc(0.2, 0.7) == S.auc(0.2, 0.7)
         ident = ident and F == S
+        # bootstrap queries: a custom sampler's object is returned as it is (whatever its configuration),
+        # the built-in samplers give equal samples for the same seed
+        from score_analysis import BootstrapConfig, Scores as _S
+        other = _S([0.25, 0.5], [0.75], score_class="neg" if F.score_class.value == "pos" else "pos", equal_class="neg")
+        cfgc = BootstrapConfig(sampling_method=lambda s_: other)
+        ident = ident and F.bootstrap_sample(cfgc) is other and S.bootstrap_sample(cfgc) is other
+        if full and len(F.pos) and len(F.neg):
+            for sm in ("replacement", "single_pass", "dynamic"):
+                cfgb = BootstrapConfig(sampling_method=sm, nb_samples=3, bootstrap_method="quantile")
+                np.random.seed(5)
+                a_ = F.bootstrap_sample(cfgb)
+                np.random.seed(5)
+                b_ = S.bootstrap_sample(cfgb)
+                ident = ident and _S.__eq__(a_, b_)
+            np.random.seed(6)
+            ca = np.asarray(F.bootstrap_ci("fnr", config=cfgc, threshold=0.5))
+            cb = np.asarray(S.bootstrap_ci("fnr", config=cfgc, threshold=0.5))
+            ident = ident and np.array_equal(ca, cb, equal_nan=True)
     except Exception:  # noqa
         ident = False
     out["bitwise_identical"] = bool(ident)
@@ -184,6 +202,32 @@ def run(ctx: core.Ctx):
         a = {"g": gv, "f": fv, "eg": int(rnd.randint(0, 3)), "ef": int(rnd.randint(0, 3)), "sc": sc}
         big_cases.append(dict(a, kind="indep", dtype=None if dt is None else np.dtype(dt).name))
         big_evs.append(event(a, k, BIGMID, ids, 0, full=k % 4 == 0, dtype=dt))
+    # NaN among the scores must not hide an out-of-range score
+    nan_evs = []
+    from score_analysis.applications import FraudScores as _F
+    NANV = -99
+    for k in range(60 if ctx.tier == "quick" else 600):
+        dom = [NANV, -1, 0, 1, mid, mid + 1, mid + 2]
+        gv = [dom[int(x)] for x in rnd.randint(0, len(dom), int(rnd.randint(0, 4)))]
+        fv = [dom[int(x)] for x in rnd.randint(0, len(dom), int(rnd.randint(0, 4)))]
+        if k % 3 == 0:
+            (gv if k % 2 else fv).append(NANV)
+        e = {"id": next(ids), "cid": 0, "op": "fraud_nan", "exc": "", "g": gv, "f": fv}
+        conc = lambda v, fl: float("nan") if v == NANV else realise(v, mid, fl)  # noqa
+        with warnings.catch_warnings():
+            warnings.simplefilter("ignore")
+            try:
+                if k % 2:
+                    _F(genuines=np.array([conc(v, k) for v in gv], dtype=float), frauds=[conc(v, k + 1) for v in fv])
+                else:
+                    lab = np.array(["G"] * len(gv) + ["F"] * len(fv))
+                    _F.from_labels(lab, np.array([conc(v, k) for v in gv + fv], dtype=float), genuine_label="G")
+            except ValueError:
+                e["exc"] = "ValueError"
+            except Exception as ex:  # noqa
+                e["exc"] = type(ex).__name__
+        nan_evs.append(e)
+    evs += nan_evs
     from score_analysis.applications.doc_fraud import binary_to_doc_label, doc_to_binary_label
     lab = {"id": next(ids), "cid": 0, "op": "labels", "exc": "",
            "d2b": {d: doc_to_binary_label(d).value for d in ("genuine", "fraud")},
